@@ -837,6 +837,23 @@ class Engine:
             raise Unsupported('& of two symbolic operands')
         if isinstance(op, ast.BitOr):
             return [Res(p, VInt(bit_or(p, x, y)))]
+        if isinstance(op, ast.BitXor):
+            def xor_const(a, c):
+                out = a
+                i = 0
+                while (1 << i) <= c:
+                    if c & (1 << i):
+                        out = out + (1 - 2 * ((a / (1 << i)) % 2)) * (1 << i)
+                    i += 1
+                return out
+            for (u, v) in ((x, y), (y, x)):
+                cv = const_int(v)
+                if cv is not None and cv >= 0:
+                    return [Res(p, VInt(xor_const(u, cv)))]
+                cc = cond_const(v)
+                if cc is not None:
+                    return [Res(p, VInt(z3.If(cc[0], xor_const(u, cc[1]), u)))]
+            raise Unsupported('^ of two symbolic operands')
         raise Unsupported('binop %s' % type(op).__name__)
 
     def _is_empty(self, t):
